@@ -191,6 +191,8 @@ def ghost_values(model):
         if nm.startswith('ghost_'):
             fi = model[d]
             ent = {'table': [], 'else': None}
+            if z3.is_int_value(fi):          # 0-ary ghost constant
+                ent['else'] = fi.as_long()
             if isinstance(fi, z3.FuncInterp):
                 for i in range(fi.num_entries()):
                     e = fi.entry(i)
